@@ -1,10 +1,10 @@
 #!/bin/sh
-# tools/verify_seed.sh <ID> [srcdir]: independently confirm a seeded change produced by a sub-agent and store it under /verif/seeded/<ID>/.
+# tools/verify_seed.sh <ID> [srcdir] [destname]: independently confirm a seeded change produced by a sub-agent and store it under /verif/seeded/<ID>/.
 #  - applies seed/patch.diff to a fresh scratch copy of the pristine tree, builds, runs the unedited test suite (must pass),
 #  - builds demo.c against the changed and the pristine library (must fail / pass),
 #  - copies patch.diff, demo.c, meta.json and a verification log to /verif/seeded/<ID>/, removes the scratch copy.
 # Development aid; nothing in MANIFEST.json refers to it.
-ID="$1"; SRC="${2:-/tmp/wt_$ID/seed}"; W=/tmp/vs_$ID; P=/tmp/pristine_repo
+ID="$1"; SRC="${2:-/tmp/wt_$ID/seed}"; DEST="${3:-$ID}"; W=/tmp/vs_$ID; P=/tmp/pristine_repo
 set -u
 rm -rf "$W"; cp -a "$P" "$W" || exit 3
 LOG=/tmp/vs_$ID.log; : > "$LOG"
@@ -21,8 +21,8 @@ echo "demo: changed-exit=$BAD pristine-exit=$GOOD" >> "$LOG"
 OK=no; [ "$FAILS" = "0" ] && [ "$PASS" -ge 127 ] && [ "$BAD" != "0" ] && [ "$GOOD" = "0" ] && OK=yes
 echo "$ID verified=$OK  (suite pass=$PASS fail=$FAILS; demo changed=$BAD pristine=$GOOD)"
 if [ "$OK" = yes ]; then
-  mkdir -p /verif/seeded/$ID && cp "$SRC/patch.diff" "$SRC/demo.c" /verif/seeded/$ID/ && cp "$LOG" /verif/seeded/$ID/verify.log
-  python3 - "$ID" "$SRC" "$PASS" "$BAD" <<'PY'
+  mkdir -p /verif/seeded/$DEST && cp "$SRC/patch.diff" "$SRC/demo.c" /verif/seeded/$DEST/ && cp "$LOG" /verif/seeded/$DEST/verify.log
+  python3 - "$DEST" "$SRC" "$PASS" "$BAD" <<'PY'
 import json,sys
 pid,src,npass,bad=sys.argv[1:5]
 m=json.load(open(src+'/meta.json'))
